@@ -272,15 +272,18 @@ def optBeq : Option GoTy → Option GoTy → Bool
 /-- Go assignability of a value of static type `et` to a variable of type `target` -/
 def assignable (env : Env) (fuel : Nat) (et : ETy) (target : GoTy) : Bool :=
   let tn := norm env fuel target
-  match under env fuel tn with
-  | none => false
-  | some u =>
-    match et with
-    | .bad _ => false
-    | .typed t =>
-      let t' := norm env fuel t
-      GoTy.beq t' tn || isIface u || ((!isNamed t' || !isNamed tn) && optBeq (under env fuel t') (some u))
-    | e => untypedFits u e
+  match et with
+  | .bad _ => false
+  | .typed t =>
+    let t' := norm env fuel t
+    GoTy.beq t' tn ||
+      (match under env fuel tn with
+        | some u => isIface u || ((!isNamed t' || !isNamed tn) && optBeq (under env fuel t') (some u))
+        | none => false)
+  | e =>
+    (match under env fuel tn with
+      | some u => untypedFits u e
+      | none => false)
 
 def findGoField (n : String) : List GoField → Option GoField
   | [] => none
